@@ -139,3 +139,97 @@ Definition recv_step (cr cw : Cfg) (Pr Pw : Prim CS) (e : Endpoint) (w : Wire) :
   end.
 End Accept.
 Arguments Endpoint : clear implicits.
+
+(* ======================= round 3 additions ============================================================ *)
+(* ---- the early-data tolerance window of RecordLayer.recvRecord ----------------------------------------
+   early_data_ok (opened by the server when a ClientHello carries early_data, whatever version is then
+   negotiated): a record failing with TLSBadRecordMAC is skipped -- read state restored, its length added
+   to _early_data_processed -- while the sum stays below max_early_data; ANY record that is processed
+   closes the window (and resets the counter).  While no key is installed, application_data records are
+   treated as undecryptable. *)
+Section Early.
+Context {CS : Type}.
+Record ESt := { es_st : St CS; es_ok : bool; es_used : Z }.
+
+Definition unprotect_e (c : Cfg) (P : Prim CS) (max_early : Z) (r : ESt) (w : Wire)
+  : rres (ESt * option (Z * list Z)) :=
+  let '(hty, hver, body) := w in
+  let keyless := negb (c_has_enc c) && negb (c_has_mac c) && es_ok r && (hty =? 23) in
+  let skip (_ : unit) :=
+      if es_ok r && (es_used r + zlen body <? max_early)
+      then ROk ({| es_st := es_st r; es_ok := true; es_used := es_used r + zlen body |}, None)
+      else RErr EBadMac in
+  if keyless then
+    (if (zlen body >? c_recv_limit c + 2048) || (c_tls13 c && (zlen body >? c_recv_limit c + 256))
+     then RErr EOverflow else skip tt)
+  else
+    match unprotect c P (es_st r) w with
+    | ROk (s1, x) => ROk ({| es_st := s1; es_ok := false; es_used := 0 |}, Some x)
+    | RErr EBadMac => skip tt
+    | RErr e => RErr e
+    end.
+
+(* a stream of records through recvRecord: what is handed up, and how it ends *)
+Fixpoint recv_stream_e (c : Cfg) (P : Prim CS) (max_early : Z) (r : ESt) (ws : list Wire)
+  : list (Z * list Z) * option rerr * ESt :=
+  match ws with
+  | [] => ([], None, r)
+  | w :: rest =>
+      match unprotect_e c P max_early r w with
+      | RErr e => ([], Some e, r)
+      | ROk (r1, None) => recv_stream_e c P max_early r1 rest
+      | ROk (r1, Some x) => let '(xs, e, r2) := recv_stream_e c P max_early r1 rest in (x :: xs, e, r2)
+      end
+  end.
+End Early.
+Arguments ESt : clear implicits.
+
+(* ---- unprotected records after the handshake (TLS 1.3) --------------------------------------------------
+   _getMsg drops an unprotected change_cipher_spec only while _middlebox_compat_mode is set; both that flag and
+   allow_plaintext_alert are cleared when the handshake completes (every flavour: full, HelloRetryRequest,
+   PSK, resumption, both roles). *)
+Definition recv_step13 {CS} (compat : bool) (cr cw : Cfg) (Pr Pw : Prim CS) (e : Endpoint CS) (w : Wire)
+  : Endpoint CS * outcome :=
+  match recv_step cr cw Pr Pw e w with
+  | (e1, OOther 20) => if compat then (e1, OOther 20)          (* ignored, reading continues *)
+                       else send_error cw Pw e1 10
+  | r => r
+  end.
+
+(* ---- the KeyUpdate ratchet (TLSRecordLayer.send_keyupdate_request / _handle_keyupdate_request) ----------
+   Per endpoint: generation of the stored own-direction secret, of the stored peer-direction secret, of the
+   installed write key and of the installed read key.  KeyUpdate messages in flight per direction carry the
+   request flag. *)
+Record KUEnd := { ku_own : nat; ku_peer : nat; ku_wr : nat; ku_rd : nat }.
+Record KUSys := { ku_a : KUEnd; ku_b : KUEnd; ku_ab : list bool; ku_ba : list bool }.
+Inductive ku_op := KUSend (from_a : bool) (requested : bool) | KURecv (at_b : bool).
+
+Definition ku_sent (e : KUEnd) : KUEnd :=
+  {| ku_own := S (ku_own e); ku_peer := ku_peer e; ku_wr := S (ku_wr e); ku_rd := ku_rd e |}.
+Definition ku_received (e : KUEnd) : KUEnd :=
+  {| ku_own := ku_own e; ku_peer := S (ku_peer e); ku_wr := ku_wr e; ku_rd := S (ku_rd e) |}.
+
+Definition ku_step (s : KUSys) (o : ku_op) : KUSys :=
+  match o with
+  | KUSend true req => {| ku_a := ku_sent (ku_a s); ku_b := ku_b s; ku_ab := ku_ab s ++ [req]; ku_ba := ku_ba s |}
+  | KUSend false req => {| ku_a := ku_a s; ku_b := ku_sent (ku_b s); ku_ab := ku_ab s; ku_ba := ku_ba s ++ [req] |}
+  | KURecv true =>                    (* B processes the next KeyUpdate from A; answers if asked to *)
+      match ku_ab s with
+      | [] => s
+      | req :: rest =>
+          let b1 := ku_received (ku_b s) in
+          if req then {| ku_a := ku_a s; ku_b := ku_sent b1; ku_ab := rest; ku_ba := ku_ba s ++ [false] |}
+          else {| ku_a := ku_a s; ku_b := b1; ku_ab := rest; ku_ba := ku_ba s |}
+      end
+  | KURecv false =>
+      match ku_ba s with
+      | [] => s
+      | req :: rest =>
+          let a1 := ku_received (ku_a s) in
+          if req then {| ku_a := ku_sent a1; ku_b := ku_b s; ku_ab := ku_ab s ++ [false]; ku_ba := rest |}
+          else {| ku_a := a1; ku_b := ku_b s; ku_ab := ku_ab s; ku_ba := rest |}
+      end
+  end.
+Definition ku_init : KUSys :=
+  {| ku_a := {| ku_own := 0; ku_peer := 0; ku_wr := 0; ku_rd := 0 |};
+     ku_b := {| ku_own := 0; ku_peer := 0; ku_wr := 0; ku_rd := 0 |}; ku_ab := []; ku_ba := [] |}.
